@@ -443,7 +443,7 @@ def main(tier, seed):
                      "release on completion) are also enforced by the E1 monitor in "
                      "every C02/C05/C06 world"],
         required_stats=("queries", "states_with_offers", "states_offering_virtual"),
-        chunk=1, budget_s=200 if tier == "quick" else 2400, confirm_job=confirm_job)
+        chunk=1, budget_s=200 if tier == "quick" else 900, confirm_job=confirm_job)
     e1 = _e1props.main("C18", tier, seed, finish=False)
     combine_and_finish("C18", tier, seed, [("E2-frontier", e2), ("E1-runs", e1)])
 
